@@ -17,3 +17,15 @@ Proof.
     assert (a = 0) by nra. assert (b = 0) by nra. subst. rewrite E. split; ring.
   - destruct (H Hr) as [-> ->]. split; field; exact Hr.
 Qed.
+
+(* get_data computes 20 log10 |A|; the property speaks of 10 log10 T with T = |A|^2: the same number *)
+Theorem dB_amplitude a b : 0 < a * a + b * b ->
+  20 * (ln (sqrt (a * a + b * b)) / ln 10) = 10 * (ln (a * a + b * b) / ln 10).
+Proof.
+  intros H. set (x := a * a + b * b) in *.
+  assert (Hs : 0 < sqrt x) by (apply sqrt_lt_R0; exact H).
+  assert (E : ln x = ln (sqrt x) + ln (sqrt x)).
+  { rewrite <- ln_mult by assumption. rewrite sqrt_sqrt by lra. reflexivity. }
+  rewrite E. field.
+  assert (0 < ln 10); [|lra]. rewrite <- ln_1. apply ln_increasing; lra.
+Qed.
